@@ -309,11 +309,28 @@ def run_shard(shard, rec):
     elif kind == 'hash':
         import os
         rec.add('hashseed_env', os.environ.get('PYTHONHASHSEED'))
-        for i in range(shard['n']):
+        # the SAME fixed case list in every process, but executed in a different ORDER per process:
+        # state leaking from one call into a later one (module-level memo, shared default tokenizer,
+        # reused index) then shows as different digests for the same case
+        order = list(range(shard['n']))
+        if shard['hashseed'] != HASHSEEDS[0]:
+            random.Random(shard['hashseed']).shuffle(order)
+        from rv.checks import seq
+        for i in order:
             entry = ENTRY[i % len(ENTRY)]
-            rng = random.Random(990000 + i)          # the SAME fixed case list in every process
-            call = make_entry_call(rng, entry)
-            call['n_jobs'] = [1, 2, 3][i % 3]
+            rng = random.Random(990000 + i)
+            if i % 6 == 5:
+                # edit-distance joins over one small string pool with q in {2,3} and few thresholds
+                pool = seq.string_pool(random.Random(77), 16)
+                q = [2, 3][(i // 6) % 2]
+                L = T.table_spec(['lid', 'lattr'], [[x, rng.choice(pool)] for x in range(6)], dtypes={'lattr': 'object'})
+                R = T.table_spec(['rid', 'rattr'], [[x, rng.choice(pool)] for x in range(6)], dtypes={'rattr': 'object'})
+                call = {'api': 'edit_distance_join', 'ltable': L, 'rtable': R, 'l_key': 'lid', 'r_key': 'rid',
+                        'l_attr': 'lattr', 'r_attr': 'rattr', 'threshold': rng.choice([1, 2]),
+                        'tok': {'kind': 'qgram', 'q': q, 'padding': True, 'return_set': False}, 'n_jobs': 1}
+            else:
+                call = make_entry_call(rng, entry)
+                call['n_jobs'] = [1, 2, 3][i % 3]
             try:
                 df = T.exec_call(ssj, call)
                 d = digest(df)
@@ -368,8 +385,9 @@ def finalize(agg, tier):
             n_cmp += 1
             if len(v) != 1:
                 agg['violations'].append({'property': PROPERTY, 'oracle': 'hashseed', 'message':
-                                          'fixed case %s gives different results in processes with '
-                                          'different PYTHONHASHSEED: %r' % (k, sorted(v)),
+                                          'fixed case %s gives different results in processes that differ '
+                                          'in PYTHONHASHSEED and in the order the case list is executed: '
+                                          '%r' % (k, sorted(v)),
                                           'case': {'gen': 'hash', 'index': int(k[3:])},
                                           'known_key': None})
     c['hashseed_cases_compared'] = n_cmp
